@@ -89,6 +89,7 @@ func passLattice(thorough bool) []passCase {
 		{"a", "a"},
 		{"long200", long},
 		{"nonascii", "pässwörd-密码-\U0001F511"},
+		{"ends-crlf", " s3cret\t\r\n"}, // white space and line endings are part of the credential
 	}
 	if thorough {
 		out = append(out,
@@ -115,7 +116,7 @@ func hmacKey(p string) [64]byte {
 	return k
 }
 
-var editAlphabet = []rune{'a', 'B', '0', ' ', 'é', 0}
+var editAlphabet = []rune{'a', 'B', '0', ' ', 'é', 0, '\n', '\r'}
 
 // edits1 returns every passphrase at edit distance one over editAlphabet (rune positions).
 func edits1(p string) []string {
@@ -550,9 +551,9 @@ func TestCheck(t *testing.T) {
 	run := ev.Start("exploration")
 	run.Rule = "cases are (key file, passphrase, API) triples: key files are composed by the harness from a reference implementation of the v3/v1 formats " +
 		"with salt and IV fixed per base (or taken from testdata/testkeystore), then every byte of the file is altered (substitution over a per-token alphabet, " +
-		"deletion, insertion in numbers, one-byte truncation/extension of hex strings); passphrases are every edit-distance-1 neighbour over a 6-rune alphabet. " +
+		"deletion, insertion in numbers, one-byte truncation/extension of hex strings); passphrases are every edit-distance-1 neighbour over an 8-rune alphabet (letters, digit, space, non-ASCII, NUL, LF, CR). " +
 		"A class is (format family, JSON path of the altered token, kind of alteration, API, outcome class) and is only counted when the real code ran on it."
-	run.Assume("private keys: {1, 2, N-1, one and two leading zero bytes, two ordinary}; passphrases: {empty, 1 char, 200 chars, non-ASCII} (+ 64/65 bytes and embedded NUL in thorough)")
+	run.Assume("private keys: {1, 2, N-1, one and two leading zero bytes, two ordinary}; passphrases: {empty, 1 char, 200 chars, non-ASCII, one with leading space and trailing tab CR LF} (+ 64/65 bytes and embedded NUL in thorough)")
 	run.Assume("tamper bases use scrypt N=2,r=8,p=1 / pbkdf2 c=2; the standard (N=2^18) and light (N=2^12,p=6) parameter sets are round-tripped only")
 	run.Assume("two passphrases with the same RFC 2104 HMAC key (zero padding below 64 bytes, SHA-256 above) are the same credential: scrypt and PBKDF2 cannot distinguish them; such neighbours may unlock, but only to the original key")
 	run.Assume("EncryptKey output (random salt/IV/uuid) is used for round trips only; no verdict depends on the draw")
